@@ -44,10 +44,12 @@ def collect_case(draw, tier="quick"):
                     groups[g].append(i)
             if mode == "with_empty":
                 groups[draw(st.integers(0, ngroups - 1))] = []
-    nkeys = draw(st.integers(1, 3))
+    nkeys = draw(st.integers(1, 4))
     pool = [["temp", "qartod", "gross_range_test"], ["temp", "qartod", "spike_test"], ["sal.1", "qartod", "gross_range_test"],
             ["temp", "argo", "pressure_increasing_test"], ["sal.1", "axds", "valid_range_test"],
-            ["temp", "axds", "gross_range_test"]]
+            ["temp", "axds", "gross_range_test"],
+            # stream ids that differ only in punctuation are different streams
+            ["sal_1", "qartod", "gross_range_test"], ["sal 1", "qartod", "gross_range_test"], ["sal_1", "axds", "valid_range_test"]]
     keys = draw(st.lists(st.sampled_from(pool), min_size=nkeys, max_size=nkeys, unique_by=lambda k: tuple(k)))
     emitted = []
     for gi, rows in enumerate(groups):
@@ -68,6 +70,7 @@ def collect_case(draw, tier="quick"):
 
 def source(n):
     return {"temp": np.arange(n, dtype="float64") * 1.5 + 10, "sal.1": np.arange(n, dtype="float64") * -2.0 + 35,
+            "sal_1": np.arange(n, dtype="float64") * 0.5 + 7, "sal 1": np.arange(n, dtype="float64") * -0.25 - 4,
             "tinp": (np.arange(n) * 3600 + 1577836800).astype("datetime64[s]").astype("datetime64[ns]"),
             "zinp": np.arange(n, dtype="float64") + 0.5, "lat": np.arange(n, dtype="float64") * 0.25 - 3,
             "lon": 100.0 - np.arange(n, dtype="float64")}
